@@ -3,6 +3,7 @@ from ..core import Rule
 from ..prog import *
 from ..facts import AnalysisBroken
 from ..interp import normx, nkey, run_all
+from .. import wsmodel as WS
 
 UNITS = ["ws"]
 LEVEL = "other"
@@ -127,6 +128,8 @@ def rule_frame(P):
                                 want = INC
                             elif (3 <= opcode <= 7) or opcode >= 0xB:
                                 want = ERR
+                            elif opcode >= 0x8 and (not fin or plen > 125):
+                                want = ERR          # RFC 6455 5.5: control frames are not fragmented and carry at most 125 bytes
                             elif opcode <= 3 and not fin:
                                 want = INCF
                             else:
@@ -219,6 +222,68 @@ def rule_consume(P):
     return r
 
 
+def rule_messages(P):
+    """message reassembly: ws_evhttp_read_cb + get_ws_frame evaluated on an abstract input stream; every frame sequence of the family is fed in one piece, cut
+    in two at every byte position and byte by byte; what the message callback receives (and whether the connection is closed) equals the RFC 6455 decoder"""
+    r = Rule("C31-messages", "K6", "frame sequences (fragmentation, interleaved control frames, close, malformed fragmentation) are decoded into the RFC 6455 messages for every segmentation", floor=300)
+    m = [0x11, 0x22, 0x33, 0x44]
+    T, B, C, PING, PONG, CONT = WS.TEXT, WS.BINARY, WS.CLOSE, WS.PING, WS.PONG, WS.CONT
+    fam = [
+        ("single text", [(1, T, b"Hello")]),
+        ("two messages", [(1, T, b"Hi"), (1, B, b"\x00\x01")]),
+        ("fragmented text: first + final continuation", [(0, T, b"Hel"), (1, CONT, b"lo")]),
+        ("three fragments", [(0, B, b"a"), (0, CONT, b"b"), (1, CONT, b"c")]),
+        ("ping inside a fragmented message", [(0, T, b"Hel"), (1, PING, b"p"), (1, CONT, b"lo")]),
+        ("pong and ping between messages", [(1, T, b"a"), (1, PONG, b""), (1, PING, b"x"), (1, T, b"b")]),
+        ("fragmented, then a complete message", [(0, T, b"x"), (1, CONT, b"y"), (1, B, b"z")]),
+        ("126-byte message (16-bit length)", [(1, B, bytes(range(126)))]),
+        ("close, then a text frame", [(1, C, b""), (1, T, b"late")]),
+        ("new data frame inside a fragmented message", [(0, T, b"Hel"), (1, T, b"lo")]),
+        ("continuation without a first fragment", [(1, CONT, b"x")]),
+        ("non-final continuation without a first fragment", [(0, CONT, b"x"), (1, CONT, b"y")]),
+        ("fragmented ping", [(0, PING, b"p"), (1, T, b"a")]),
+        ("reserved opcode", [(1, 3, b"r"), (1, T, b"a")]),
+        ("unmasked frames", None),
+    ]
+    f = P.fn("ws_evhttp_read_cb")
+    # premise of "nothing is looked at after a close": evws_close takes the read callback away
+    g = P.fn("evws_close")
+    sc = [el for el in g.calls("bufferevent_setcb")]
+    drops = bool(sc) and all(is_e(strip(el.e[2][1]), "null") or (is_e(strip(el.e[2][1]), "int") and strip(el.e[2][1])[1] == 0) for el in sc)
+    r.inst("close-drops-readcb", {"fn": g.name, "setcb_sites": [el.where() for el in sc], "read_callback_removed": drops}, nontrivial=False)
+    if not drops:
+        r.bad("K3:evws_close:read-callback-kept", "%s:%d" % (g.file, g.line), g.name, "evws_close does not remove the read callback: frames arriving after the close would still be decoded and delivered")
+    nb = 0
+    for name, frs in fam:
+        if frs is None:
+            frs = [(1, T, b"plain"), (0, B, b"p"), (1, CONT, b"q")]
+            stream = b"".join(WS.frame(fin, op, pl, None) for fin, op, pl in frs)
+        else:
+            stream = b"".join(WS.frame(fin, op, pl, m) for fin, op, pl in frs)
+        want = WS.reference(frs)
+        segs = [()] + [(k,) for k in range(1, len(stream))] + ([tuple(range(1, len(stream)))] if len(stream) < 60 else [])
+        for cuts in segs:
+            got = WS.feed(P, stream, cuts)
+            if isinstance(got, tuple) and got and got[0] == "unknown":
+                r.brk("ws_evhttp_read_cb not evaluable on %r cut %s: %s" % (name, list(cuts)[:3], got[1]))
+                return r
+            # after a close nothing more may be delivered; the close itself is reported once
+            r.inst((name, cuts if len(cuts) < 3 else "bytewise"), {"sequence": name, "cuts": list(cuts)[:3], "delivered": [[e[0]] + ([e[1], e[2].decode("latin-1")] if e[0] == "msg" else []) for e in got]})
+            if got != want and nb < 6:
+                nb += 1
+                kind = "delivered-after-close" if ("close",) in got and got.index(("close",)) < len(got) - 1 else ("valid-sequence-refused" if ("close",) in got and ("close",) not in want else
+                        ("malformed-sequence-delivered" if ("close",) in want and ("close",) not in got else "segmentation-or-content"))
+                r.bad("K6:ws_evhttp_read_cb:%s" % kind, "%s:%d" % (f.file, f.line), f.name,
+                      "frame sequence '%s' %s: delivers %s; an RFC 6455 decoder gives %s" % (name, ("cut at %s" % list(cuts)) if cuts and len(cuts) < 3 else ("byte by byte" if cuts else "in one read"), got, want))
+    seen, uniq = set(), []
+    for f_ in r.findings:
+        if f_.key not in seen:
+            seen.add(f_.key)
+            uniq.append(f_)
+    r.findings = uniq
+    return r
+
+
 def run(ctx, config):
     P = ctx.prog(UNITS, config)
-    return [rule_frame(P), rule_caller(P), rule_consume(P)]
+    return [rule_frame(P), rule_caller(P), rule_consume(P), rule_messages(P)]
